@@ -295,6 +295,9 @@ def check(ctx):
     ctx.rule("R9", "exactly one command per request also under contention: every command factory handed to the request engine builds its handler when called (a handler built before the lock is taken starts its timeout clock early, expires while waiting, and the one stale instance is re-sent on every retry) - C06.R1 builds-fresh-request borrowed")
     from . import c06 as _c06
     _c06.fresh_request_factories(ctx.borrowed("R9", "C06"), repo)
+    ctx.rule("R11", "every blocking command is carried out: the blocking twins hand their command to the task registry under a fixed task name; the registry, interpreted on model tasks, starts a task for EVERY add_task call - also while a task of the same name and key is still running (C10.R3's registry model borrowed)")
+    from ..taskmodel import check_registry as _cr13
+    _cr13(ctx.borrowed("R11", "C10"), repo, "R3", only=("same-name",))
     ctx.rule("R10", "read-back after the echo: what the facade's sensors present is what the items decode from the block as it is now, also after a unit change that leaves the temperature word untouched (C14.R9 borrowed)")
     from .c14 import presented_value_follows_the_block
     presented_value_follows_the_block(ctx.borrowed("R10", "C14"), repo, "R9")
